@@ -16,13 +16,22 @@ def devStr (so : Nat) (b : HbDev) : String :=
   let nx := if b.sched.isDisabled then "dis" else toString (b.sched.next - so)
   s!"{b.sched.period}/{b.sched.offset}/{nx}/{b.seq}"
 
+def isHbFrame (f : Frame) : Bool := (f.id >>> 8) % 131072 == 126993
+
+/-- What the property leaves open in a heartbeat frame (priority, payload bytes 3..7) is not the model's business: the
+harness reads it from the library's encoder (`hbfmt` op) and the engine prints the model's 126993 frames with it. -/
+def fixHb (fmt : Nat × List Nat) (f : Frame) : Frame :=
+  if isHbFrame f then
+    { f with id := (f.id % 67108864) + (fmt.1 % 8) * 67108864, len := 3 + fmt.2.length, data := f.data.take 3 ++ fmt.2 }
+  else f
+
 /-- `run n`: n times (poll, advance 1 ms); output `k:frame` for every frame accepted at step k -/
-def runDense : Nat → Nat → HSt → List String → HSt × List String
+def runDense (fmt : Nat × List Nat) : Nat → Nat → HSt → List String → HSt × List String
   | 0, _, h, acc => (h, acc)
   | n+1, k, h, acc =>
     let (h1, fr) := takeSentH (pollTopH h).1
-    let acc := acc ++ fr.map (fun f => s!"{k}:{frameStr f}")
-    runDense n (k + 1) (tickH h1 1) acc
+    let acc := acc ++ fr.map (fun f => s!"{k}:{frameStr (fixHb fmt f)}")
+    runDense fmt n (k + 1) (tickH h1 1) acc
 
 def le (n v : Nat) : List Nat := (List.range n).map fun i => (v >>> (8 * i)) % 256
 
@@ -55,7 +64,6 @@ def gfPoll (h : HSt) (target : Option Nat) (iv off pairs : Nat) : HSt :=
       | some d => gfServe (gfReqMsg d.source iv off pairs) h1 i
   (sendHeartbeat false h2).1
 
-def isHbFrame (f : Frame) : Bool := (f.id >>> 8) % 131072 == 126993
 
 def parseDevArg (s : String) : Option Nat := if s.startsWith "-" then none else nat? s
 
@@ -64,8 +72,9 @@ structure ES where
   h : HSt
   roll : Roll
   base : Nat
+  fmt : Nat × List Nat := (7, [0xff, 0xff, 0xff, 0xff, 0xff])
 
-def stepH (st : Option HSt) (w : List String) : Option HSt × String :=
+def stepH (fmt : Nat × List Nat) (st : Option HSt) (w : List String) : Option HSt × String :=
   match w with
   | "reset0" :: fl :: q :: mode :: now :: devs =>
     match nat? q, nat? mode, nat? now with
@@ -96,16 +105,16 @@ def stepH (st : Option HSt) (w : List String) : Option HSt × String :=
       | none => (st, "bad-op")
     | ["poll"] =>
       let (h', fr) := takeSentH (pollTopH h).1
-      (some h', framesStr fr)
+      (some h', framesStr (fr.map (fixHb fmt)))
     | ["run", n] => match nat? n with
       | some n =>
-        let (h', out) := runDense n 0 h []
+        let (h', out) := runDense fmt n 0 h []
         (some h', if out.isEmpty then "-" else " ".intercalate out)
       | none => (st, "bad-op")
     | ["claim", d] => match nat? d with
       | some d =>
         let (h', fr) := takeSentH (claimH h d)
-        (some h', framesStr fr)
+        (some h', framesStr (fr.map (fixHb fmt)))
       | none => (st, "bad-op")
     | ["hbset", iv, off, d] => match nat? iv, nat? off with
       | some iv, some off => (some (setHeartbeatIntervalAndOffset h iv off (parseDevArg d)), "ok")
@@ -113,20 +122,20 @@ def stepH (st : Option HSt) (w : List String) : Option HSt × String :=
     | ["hbforce"] =>
       if h.st.openState ≠ 3 then (st, "closed") else
       let (h', fr) := takeSentH (sendHeartbeat true h).1
-      (some h', framesStr fr)
+      (some h', framesStr (fr.map (fixHb fmt)))
     | ["hbdev", d] =>
       if h.st.openState ≠ 3 then (st, "closed") else
       match parseDevArg d with
       | some d =>
         let (h', fr) := takeSentH (sendHeartbeatOne h d).1
-        (some h', framesStr fr)
+        (some h', framesStr (fr.map (fixHb fmt)))
       | none => (st, "-")
     | ["gfreq", d, iv, off, pairs] =>
       if h.st.openState ≠ 3 then (st, "closed") else
       match nat? iv, nat? off, nat? pairs with
       | some iv, some off, some pairs =>
         let (h', fr) := takeSentH (gfPoll h (parseDevArg d) iv off pairs)
-        (some h', framesStr (fr.filter isHbFrame))
+        (some h', framesStr ((fr.filter isHbFrame).map (fixHb fmt)))
       | _, _, _ => (st, "bad-op")
     | ["get"] =>
       let l := h.hb.map (devStr h.syncOffset)
@@ -140,12 +149,16 @@ def step (es : Option ES) (w : List String) : Option ES × String :=
   | "devlist" :: _ => (none, "ok")      -- device-list probe of the harness (not modelled here)
   | "probe" :: _ => (none, "ok")        -- TP / slot / pending-information probes of the harness (oracle only)
   | "reset0" :: _ =>
-    match stepH none w with
+    match stepH (7, []) none w with
     | (some h, out) =>
       -- the harness samples N2kMillis64() once when the node has been constructed
       let r := ({} : Roll).read (millis32 h.st.now)
       (some { h := h, roll := r.1, base := if h.st.flavor = .t64 then h.st.now else r.2 }, out)
     | (none, out) => (es, out)
+  | ["hbfmt", p, tail] =>
+    match es, nat? p, hexBytes? tail with
+    | some e, some p, some t => (some { e with fmt := (p, t) }, "ok")
+    | _, _, _ => (es, "bad-op")
   | ["m64"] =>
     match es with
     | none => (es, "bad-op")
@@ -159,7 +172,7 @@ def step (es : Option ES) (w : List String) : Option ES × String :=
     match es with
     | none => (es, "bad-op")
     | some e =>
-      match stepH (some e.h) w with
+      match stepH e.fmt (some e.h) w with
       | (some h', out) => (some { e with h := h' }, out)
       | (none, out) => (es, out)
 
